@@ -68,6 +68,28 @@ impl CKBProtocolHandler for SyncProtocol {
         match message {
             packed::SyncMessageUnionReader::SendBlock(reader) => {
                 let new_block = reader.to_entity().block();
+                // Only the header of a matched block is proved (through the MMR proof), the body
+                // is provided by the peer without any proof, so it has to be committed by the header.
+                {
+                    let new_block_view = new_block.clone().into_view_without_reset_header();
+                    if new_block_view.calc_transactions_root() != new_block_view.transactions_root()
+                        || new_block_view.calc_extra_hash().extra_hash()
+                            != new_block_view.extra_hash()
+                    {
+                        warn!(
+                            "SyncProtocol.received a block {:#x} from Peer({}) \
+                            but its body is not committed by its header",
+                            new_block_view.hash(),
+                            peer
+                        );
+                        nc.ban_peer(
+                            peer,
+                            BAD_MESSAGE_BAN_TIME,
+                            String::from("send us a block with an uncommitted body"),
+                        );
+                        return;
+                    }
+                }
                 let mut matched_blocks = self.peers.matched_blocks().write().expect("poisoned");
                 self.peers.add_block(&mut matched_blocks, new_block);
 
